@@ -180,6 +180,85 @@ def run_one(prop, case, ctx):
         raise HarnessError("".join(traceback.format_exception(type(exc), exc, exc.__traceback__)))
 
 
+SKIP_KEYS = {"info", "info2", "d", "truth", "meta", "ab", "disp", "jitter", "file", "records", "T"}
+
+
+def _float_paths(obj, path=()):
+    """Paths to the float leaves of a case that may be simplified without leaving the input domain: translations and
+    SE(2) angles of {'k','v'} pose dicts and plain number lists; never quaternion components, matrices or increments."""
+    out = []
+    if isinstance(obj, dict):
+        if set(obj.keys()) >= {"k", "v"} and isinstance(obj["v"], list):
+            n = {"r2": 2, "r3": 3, "se2": 3, "se3": 3}.get(obj["k"], 0)
+            for i in range(min(n, len(obj["v"]))):
+                if isinstance(obj["v"][i], float):
+                    out.append(path + ("v", i))
+            return out
+        for k, v in obj.items():
+            if k in SKIP_KEYS:
+                continue
+            out += _float_paths(v, path + (k,))
+    elif isinstance(obj, list):
+        for i, v in enumerate(obj):
+            if isinstance(v, float):
+                out.append(path + (i,))
+            elif isinstance(v, (dict, list)):
+                out += _float_paths(v, path + (i,))
+    return out
+
+
+def _get(obj, path):
+    for k in path:
+        obj = obj[k]
+    return obj
+
+
+def _set(obj, path, val):
+    for k in path[:-1]:
+        obj = obj[k]
+    obj[path[-1]] = val
+
+
+def simplify_numbers(prop, failure, known, max_calls=200, max_s=25.0):
+    """After Hypothesis has shrunk the structure: snap individual numbers of the failing case to simpler values
+    (0, 1, -1, rounded) as long as the same sub-oracle keeps failing.  Best effort, bounded, never widens the domain."""
+    import copy
+
+    case = copy.deepcopy(failure["case"])
+    sig = failure["sig"]
+    msg = failure["msg"]
+    t0 = time.time()
+    calls = 0
+    changed = 0
+    for path in _float_paths(case):
+        x = _get(case, path)
+        cands = []
+        for c in (0.0, 1.0, -1.0, float(round(x)), round(x, 1), round(x, 3)):
+            if c != x and c not in cands and len(repr(c)) < len(repr(x)):
+                cands.append(c)
+        for c in cands:
+            if calls >= max_calls or time.time() - t0 > max_s:
+                break
+            calls += 1
+            trial = copy.deepcopy(case)
+            _set(trial, path, c)
+            ctx = Ctx(prop, "simplify", known)
+            ctx._labels = []
+            try:
+                run_one(prop, trial, ctx)
+            except Violation as v:
+                if v.sig == sig:
+                    case = trial
+                    msg = v.msg
+                    changed += 1
+                    break
+            except BaseException:  # noqa: BLE001
+                pass
+        if calls >= max_calls or time.time() - t0 > max_s:
+            break
+    return {"case": case, "sig": sig, "msg": msg, "numbers_simplified": changed}
+
+
 def derive_seed(verif_seed, prop_id, shard):
     h = hashlib.blake2b(("%d|%s|%d" % (verif_seed, prop_id, shard)).encode(), digest_size=8).digest()
     return int.from_bytes(h, "little") % (2**63)
@@ -285,6 +364,11 @@ def _worker(args):
             if state["failure"] is None:
                 out["harness_error"] = "".join(traceback.format_exception(type(be), be, be.__traceback__))
 
+        if state["failure"] is not None and "harness_error" not in out and getattr(prop, "SIMPLIFY", True):
+            try:
+                state["failure"] = simplify_numbers(prop, state["failure"], known)
+            except BaseException:  # noqa: BLE001
+                pass
         out.update(
             evaluations=ctx.evaluations,
             classes=dict(ctx.classes),
